@@ -196,6 +196,7 @@ func memTrace(sc *memScenario, msg string) *Trace {
 
 func TestC17(t *testing.T) {
 	stats.Property = "C17"
+	replayRegressions(t, "C17")
 	stats.Rule = "rapid draws a scenario: tree kind, key set (50..2000 keys from the kind's universe) and operation mix (q: every read-only method incl. absent probes and failed deletes; o: overwrites; c: delete/re-insert churn; w: grow/shrink waves; m: mixed); the loop runs 8N operations and the live heap after two forced GCs is sampled at 0, N, 2N, 4N and 8N operations (violation: total growth > 1 MiB with growth > 256 KiB in at least two of the four intervals), then all keys are deleted and the tree may retain at most 256 KiB; " +
 		"non-trivial = the tree was non-empty during the loop and all 8N operations executed; distinct by (kind, mix, key-set hash)"
 	n := 100000
